@@ -3,6 +3,7 @@ CONSTANTS
   Subjects = {"alice", "bob"}
   MaxReq = 2
   MaxIdp = 1
+  MinConsume = 1
   MaxSteps = 6
 INVARIANTS Authentic NoReplay PendingSane AnswersOnlyIdP Emit
 PROPERTIES LogoutOnlyByIdP
